@@ -245,6 +245,10 @@ type PersistContext struct {
 	Bucket       *TypedBucket
 	FieldChecker FieldChecker
 	IsCreate     bool
+
+	// parentExisted is set when an entity is created through a child store over an entity which already exists in
+	// the parent store
+	parentExisted bool
 }
 
 func (ctx *PersistContext) GetParentContext() *PersistContext {
@@ -254,7 +258,8 @@ func (ctx *PersistContext) GetParentContext() *PersistContext {
 		Store:         ctx.Store.GetParentStore(),
 		Bucket:        ctx.Store.GetParentStore().GetEntityBucket(ctx.Bucket.Tx(), []byte(ctx.Id)),
 		FieldChecker:  ctx.FieldChecker,
-		IsCreate:      ctx.IsCreate,
+		// the parent's part of an entity created through a child store is an update if the parent entity already existed
+		IsCreate: ctx.IsCreate && !ctx.parentExisted,
 	}
 	// inherit error context
 	result.Bucket.ErrorHolderImpl = ctx.Bucket.ErrorHolderImpl
